@@ -124,7 +124,7 @@ func txnconcExec(ops []string) (dops []string, res []string) {
 				for i := 0; i < per; i++ {
 					rec := &txRec{writes: map[string]string{}}
 					rec.beginSeq = atomic.AddInt64(&clock, 1)
-					update := workload != "readers" || g%2 == 0
+					update := (workload != "readers" && workload != "deleters") || g%2 == 0
 					tx := db.Begin(update)
 					rec.readTs = tx.VerifReadTs()
 					mu.Lock()
@@ -151,11 +151,37 @@ func txnconcExec(ops []string) (dops []string, res []string) {
 						rec.writes[hk] = hxs(strconv.Itoa(n))
 						tx.Set(k, []byte(strconv.Itoa(n)))
 					}
+					del := func(k string) {
+						hk := hxs(k)
+						if _, ok := rec.writes[hk]; !ok {
+							rec.worder = append(rec.worder, hk)
+						}
+						rec.writes[hk] = "nf"
+						tx.Delete(k)
+					}
 					switch {
+					case !update && workload == "deleters":
+						// a reader that looks at every key twice, with a pause in which the others delete, rotate, flush and compact:
+						// both looks are reads of the one snapshot
+						for _, k := range keys {
+							get(k)
+						}
+						time.Sleep(time.Duration(1+r.Intn(4)) * time.Millisecond)
+						for _, k := range keys {
+							get(k)
+						}
 					case !update:
 						// a reader: total must be conserved inside one snapshot
 						for _, k := range keys {
 							get(k)
+						}
+					case workload == "deleters":
+						// toggle a key: delete it when it is there, write it when it is not
+						k := keys[r.Intn(nkeys)]
+						if n, ok := get(k); ok {
+							del(k)
+						} else {
+							set(k, n+1)
 						}
 					case workload == "transfer" || workload == "readers":
 						x, y := keys[r.Intn(nkeys)], keys[r.Intn(nkeys)]
@@ -258,7 +284,7 @@ func txnconcExec(ops []string) (dops []string, res []string) {
 
 func txnconcGen(r *rand.Rand, n int) []Case {
 	var cases []Case
-	wl := []string{"transfer", "counter", "skew", "readers"}
+	wl := []string{"transfer", "counter", "skew", "readers", "deleters"}
 	for c := 0; c < n; c++ {
 		w := wl[c%len(wl)]
 		op := fmt.Sprintf("conc %d %d %d %d %d %d %s", 4+r.Intn(13), 20+r.Intn(40), 2+r.Intn(3), []int{80, 200, 1000, 100000}[r.Intn(4)], r.Intn(3), r.Intn(1<<20), w)
